@@ -24,7 +24,8 @@ extern "C" const char *harness_id() { return "C19"; }
 size_t harness_max_len() { return 16; }
 
 struct Result { int code = 0; std::string out; bool corrupt = false; bool inconclusive = false; /* a verification verdict NA: the API's way of reporting that a resource could not be obtained */ std::string note; bool operator==(const Result &o) const { return code == o.code && out == o.out; } };
-struct St { KSI_Signature *sig = nullptr; KSI_Signature *sig2 = nullptr; KSI_PublicationsFile *pf = nullptr; };
+struct St { KSI_Signature *sig = nullptr; KSI_Signature *sig2 = nullptr; KSI_PublicationsFile *pf = nullptr; KSI_AggregationHashChain *chain = nullptr; std::string expect; /* op-specific reference value computed by the (unfaulted) setup */
+    void release() { KSI_Signature_free(sig); KSI_Signature_free(sig2); KSI_PublicationsFile_free(pf); KSI_AggregationHashChain_free(chain); sig = sig2 = nullptr; pf = nullptr; chain = nullptr; } };
 struct Op { const char *name; std::function<bool(KSI_CTX *, St &)> setup; std::function<Result(KSI_CTX *, St &)> body; };
 static std::vector<Op> g_ops; static std::vector<Result> g_ref; static std::vector<uint64_t> g_allocs; static std::vector<bool> g_usable;
 
@@ -219,10 +220,25 @@ static void buildCatalogue() {
         KSI_VerificationContext vc; KSI_VerificationContext_init(&vc, ctx); vc.signature = st.sig; vc.extendingAllowed = 1; KSI_PolicyVerificationResult *res = nullptr; int c = KSI_SignatureVerifier_verify(KSI_VERIFICATION_POLICY_GENERAL, &vc, &res); Result r = verdictOf(c, res); KSI_PolicyVerificationResult_free(res); vc.signature = nullptr; KSI_VerificationContext_clean(&vc); return r; }});
     // non-default option: no data-hash recycle pool (every hash computed during verification is a fresh allocation)
     g_ops.push_back({"signature-parse-and-verify-without-hash-pool", none, [](KSI_CTX *ctx, St &) { Result r; r.code = KSI_CTX_setOption(ctx, KSI_OPT_DATAHASH_CACHE_SIZE, (void *)(size_t)0); KSI_Signature *s = nullptr; HeapBuf in(g_sigA); if (r.code == KSI_OK) r.code = KSI_Signature_parse(ctx, in.p, in.n, &s); if (r.code == KSI_OK) r.out = sigHex(s).substr(0, 64); KSI_Signature_free(s); return r; }});
+    // one chain object aggregated at start level 0 and then at start level 3 (the object memoises its last result); when the second computation
+    // fails it is repeated at once on the same object: the repetition must give the fault-free root of level 3, never the remembered one of level 0
+    { auto mkChain = [](KSI_CTX *ctx) -> KSI_AggregationHashChain * { KSI_AggregationHashChain *ch = nullptr; KSI_LIST(KSI_HashChainLink) *links = nullptr; KSI_LIST(KSI_Integer) *idx = nullptr; KSI_Integer *v = nullptr; KSI_DataHash *h = nullptr; bool ok = KSI_AggregationHashChain_new(ctx, &ch) == KSI_OK;
+          if (ok) ok = KSI_Integer_new(ctx, 1, &v) == KSI_OK && KSI_AggregationHashChain_setAggrHashId(ch, v) == KSI_OK; if (ok) ok = KSI_Integer_new(ctx, 1500000000, &v) == KSI_OK && KSI_AggregationHashChain_setAggregationTime(ch, v) == KSI_OK; if (ok) { h = dataHash(ctx, 51); ok = h && KSI_AggregationHashChain_setInputHash(ch, h) == KSI_OK; } if (ok) ok = KSI_HashChainLinkList_new(&links) == KSI_OK;
+          for (int i = 0; i < 3 && ok; i++) { KSI_HashChainLink *l = nullptr; ok = KSI_HashChainLink_new(ctx, &l) == KSI_OK && KSI_HashChainLink_setIsLeft(l, i & 1) == KSI_OK; KSI_DataHash *sh = ok ? dataHash(ctx, 70 + i) : nullptr; ok = ok && sh && KSI_HashChainLink_setImprint(l, sh) == KSI_OK && KSI_HashChainLinkList_append(links, l) == KSI_OK; }
+          if (ok) ok = KSI_AggregationHashChain_setChain(ch, links) == KSI_OK; if (ok) ok = KSI_IntegerList_new(&idx) == KSI_OK && KSI_Integer_new(ctx, 0x0d, &v) == KSI_OK && KSI_IntegerList_append(idx, v) == KSI_OK && KSI_AggregationHashChain_setChainIndex(ch, idx) == KSI_OK;
+          if (!ok) { KSI_AggregationHashChain_free(ch); ch = nullptr; } return ch; };
+      g_ops.push_back({"chain-aggregate-same-object-at-two-levels", [mkChain](KSI_CTX *ctx, St &st) { st.chain = mkChain(ctx); KSI_AggregationHashChain *other = mkChain(ctx); if (!st.chain || !other) { KSI_AggregationHashChain_free(other); return false; }
+              KSI_DataHash *r3 = nullptr; int l3 = 0; bool ok = KSI_AggregationHashChain_aggregate(other, 3, &l3, &r3) == KSI_OK; if (ok) st.expect = hex(imprintOf(r3)) + "/" + num(l3); KSI_DataHash_free(r3); KSI_AggregationHashChain_free(other); return ok; },
+          [](KSI_CTX *, St &st) { Result r; KSI_DataHash *h0 = nullptr, *h3 = nullptr; int l0 = 0, l3 = 0; r.note = "start level 0"; r.code = KSI_AggregationHashChain_aggregate(st.chain, 0, &l0, &h0);
+              if (r.code == KSI_OK) { r.note = "start level 3"; r.code = KSI_AggregationHashChain_aggregate(st.chain, 3, &l3, &h3);
+                  if (r.code != KSI_OK) { KSI_DataHash *hr = nullptr; int lr = 0; int again = KSI_AggregationHashChain_aggregate(st.chain, 3, &lr, &hr); std::string got = again == KSI_OK ? hex(imprintOf(hr)) + "/" + num(lr) : std::string();
+                      if (again == KSI_OK && got != st.expect) { r.corrupt = true; r.note = "the aggregation at start level 3 failed; repeated on the same object it returned KSI_OK with " + got.substr(0, 24) + ".. instead of the fault-free " + st.expect.substr(0, 24) + ".. (a remembered result of another start level)"; } KSI_DataHash_free(hr); } }
+              if (r.code == KSI_OK) r.out = hex(imprintOf(h0)) + "/" + num(l0) + "|" + hex(imprintOf(h3)) + "/" + num(l3); if (r.code == KSI_OK && r.out.substr(r.out.find('|') + 1) != st.expect) { r.corrupt = true; r.note = "root for start level 3 differs from the one computed on a fresh object"; }
+              KSI_DataHash_free(h0); KSI_DataHash_free(h3); return r; }}); }
 }
 
 static Result runClean(size_t oi, uint64_t *allocs) {
-    Result r; resetSim(); { Ctx ctx; St st; if (!g_ops[oi].setup(ctx, st)) { r.code = -1; r.note = "setup failed"; KSI_Signature_free(st.sig); return r; } g_alloc.arm(0); r = g_ops[oi].body(ctx, st); if (allocs) *allocs = g_alloc.calls; g_alloc.disarm(); KSI_Signature_free(st.sig); KSI_Signature_free(st.sig2); KSI_PublicationsFile_free(st.pf); }
+    Result r; resetSim(); { Ctx ctx; St st; if (!g_ops[oi].setup(ctx, st)) { r.code = -1; r.note = "setup failed"; st.release(); return r; } g_alloc.arm(0); r = g_ops[oi].body(ctx, st); if (allocs) *allocs = g_alloc.calls; g_alloc.disarm(); st.release(); }
     return r;
 }
 void harness_init() {
@@ -247,7 +263,7 @@ static void faultCase(size_t oi, int mode, uint64_t n, uint64_t n2, Case &c) {
     if (!g_usable[oi]) { VF_FAIL(c, "C19:catalogue:" + on + ":fault-free-run-not-usable", "fault-free run of " + on + " failed or is not deterministic: code=" + num(g_ref[oi].code) + " " + g_ref[oi].note); return; }
     c.cls("op:" + on); long long base = g_alloc.live; const Result &want = g_ref[oi]; resetSim();
     {
-        Ctx ctx; St st; if (!op.setup(ctx, st)) { VF_FAIL(c, "C19:catalogue:" + on + ":setup", "unfaulted setup failed"); KSI_Signature_free(st.sig); return; }
+        Ctx ctx; St st; if (!op.setup(ctx, st)) { VF_FAIL(c, "C19:catalogue:" + on + ":setup", "unfaulted setup failed"); st.release(); return; }
         g_alloc.arm(mode == 2 ? 0 : n, mode == 1 ? n + n2 : 0, mode == 2 ? n : 0); Result r1 = op.body(ctx, st); uint64_t fired = g_alloc.fired; g_alloc.disarm();
         c.nontrivial = fired > 0; c.cls(fired ? (r1.code != KSI_OK ? "fault:error-returned" : "fault:completed-anyway") : "fault:not-reached");
         if (r1.corrupt) VF_FAIL(c, "C19:" + on + ":corrupt-state", "after a failed allocation: " + r1.note + " (" + c.desc + ")");
@@ -257,7 +273,7 @@ static void faultCase(size_t oi, int mode, uint64_t n, uint64_t n2, Case &c) {
         if (!c.fail) { Result r2 = op.body(ctx, st); // same context, same objects, no fault
             if (r2.corrupt) VF_FAIL(c, "C19:" + on + ":corrupt-state-afterwards", r2.note + " (" + c.desc + ")");
             else if (!(r2 == want)) VF_FAIL(c, "C19:" + on + ":not-usable-afterwards", "repeating the operation after the failed allocation gave code=" + num(r2.code) + " instead of the fault-free result (" + c.desc + ")"); }
-        KSI_Signature_free(st.sig); KSI_Signature_free(st.sig2); KSI_PublicationsFile_free(st.pf);
+        st.release();
     }
     resetSim();
     if (!c.fail && g_alloc.live != base) VF_FAIL(c, "C19:" + on + ":leak", num(g_alloc.live - base) + " SDK allocation(s) still live after everything was freed (" + c.desc + ")");
